@@ -82,12 +82,14 @@ impl Socket {
                         .unwrap()
                         .remove(&(addr, message.transaction_id.clone()))
                     {
+                        vtrace!("{} S routed {addr}", self.local_addr);
                         responded.lock().unwrap().make_ready(message);
                     } else {
                         return Ok((message, addr));
                     }
                 }
                 Err(_) => {
+                    vtrace!("{} S undecodable {addr}", self.local_addr);
                     tracing::warn!(
                         "{}: Failed decode incoming message from {addr:?}",
                         self.ip_version()
